@@ -122,7 +122,7 @@ Proof. unfold reshape_view. pure_tac. Qed.
 Lemma fft_lib_pure a N : pure (fft_lib a N).
 Proof. unfold fft_lib. pure_tac. Qed.
 #[export] Hint Resolve ts_copy_pure asanyarray_T_pure reshape_view_pure fft_lib_pure : pure.
-Lemma csd_pure s N : pure (csd s N).
+Lemma csd_pure s Sk N : pure (csd s Sk N).
 Proof. unfold csd. pure_tac. Qed.
 Lemma ut_copy_old_pure self : pure (ut_copy_old self).
 Proof. unfold ut_copy_old. pure_tac. Qed.
@@ -729,9 +729,28 @@ Lemma csd_old_refuted :
               snapshot (fst (csd_old a (Some (-1)%Z) s)) a <> snapshot s a.
 Proof. exists ex_arr3, 1. split; vm_compute; [reflexivity|discriminate]. Qed.
 Lemma ex_csd_keeps :
-  snd (csd 1 (Some (-1)%Z) ex_arr3) = Exn EValue /\
-  snapshot (fst (csd 1 (Some (-1)%Z) ex_arr3)) 1 = snapshot ex_arr3 1.
+  snd (csd 1 None (Some (-1)%Z) ex_arr3) = Exn EValue /\
+  snapshot (fst (csd 1 None (Some (-1)%Z) ex_arr3)) 1 = snapshot ex_arr3 1.
 Proof. split; vm_compute; reflexivity. Qed.
+
+(* the (2,2,2) array s (object 1), a 1-d and a 3-d precomputed transform (objects 3 and 5) *)
+Definition ex_sk : store :=
+  fst ((a <- new_arr F64 [1; 2; 3; 4]%Z [4] KPlain ;;
+        new_arr F64 [3; 1; 4; 1; 5; 9; 2; 6; 5; 3; 5; 8]%Z [2; 3; 2] KPlain) ex_arr3).
+(* a 1-d Sk is refused (TypeError) and a 3-d Sk is accepted; both keep bytes and shape, so does s *)
+Lemma ex_csd_sk_keeps :
+  (snd (csd 1 (Some 3) None ex_sk) = Exn EType /\
+   snapshot (fst (csd 1 (Some 3) None ex_sk)) 3 = snapshot ex_sk 3 /\
+   snapshot (fst (csd 1 (Some 3) None ex_sk)) 1 = snapshot ex_sk 1) /\
+  ((exists r, snd (csd 1 (Some 5) None ex_sk) = Ok r) /\
+   snapshot (fst (csd 1 (Some 5) None ex_sk)) 5 = snapshot ex_sk 5 /\
+   snapshot (fst (csd 1 (Some 5) None ex_sk)) 1 = snapshot ex_sk 1).
+Proof. repeat split; try (vm_compute; reflexivity). eexists. vm_compute. reflexivity. Qed.
+(* the in-place variant leaves the caller's 3-d Sk reshaped to 2-d although the call returns *)
+Lemma csd_sk_inplace_refuted :
+  exists s a k r, snd (csd_sk_inplace a k s) = Ok r /\
+                  snapshot (fst (csd_sk_inplace a k s)) k <> snapshot s k.
+Proof. exists ex_sk, 1, 5. eexists. split; vm_compute; [reflexivity|discriminate]. Qed.
 
 Definition ex_arr2 : store := fst (new_arr F64 [3; 1; 4; 1; 5; 9; 2; 6]%Z [2; 4] KPlain empty_store).
 (* before 322933f boxcar_filter overwrote a 2-d argument *)
@@ -1072,7 +1091,7 @@ Lemma ts_iop_atomic_snapshot f self v s e l :
   wf s -> l < next s -> snd (ts_iop f self v s) = Exn e ->
   snapshot (fst (ts_iop f self v s)) l = snapshot s l.
 Proof. intros. apply ext_nil_snapshot; auto. eapply ts_iop_atomic; eauto. Qed.
-Lemma csd_snapshot a N s l : wf s -> l < next s -> snapshot (fst (csd a N s)) l = snapshot s l.
+Lemma csd_snapshot a Sk N s l : wf s -> l < next s -> snapshot (fst (csd a Sk N s)) l = snapshot s l.
 Proof. intros. apply pure_snapshot; auto. apply csd_pure. Qed.
 Lemma boxcar_snapshot a s l : wf s -> l < next s ->
   snapshot (fst (boxcar a s)) l = snapshot s l /\ snapshot (fst (filtered_boxcar a s)) l = snapshot s l.
